@@ -11,7 +11,7 @@
     original message itself or not; returns nil / an error / panics).  Each delivery is handled
     by its own closure invocation that shares nothing but the configuration with the others,
     so the statements are per delivery. *)
-From WM Require Import Base.Prelude Message.Model Handler.RouterHandle Handler.RouterProofs CQRS.Model CQRS.Proofs CQRS.Reg CQRS.RegProofs CQRS.Calls CQRS.CallsProofs CQRS.Own CQRS.OwnProofs.
+From WM Require Import Base.Prelude Message.Model Handler.RouterHandle Handler.RouterProofs CQRS.Model CQRS.Proofs CQRS.Reg CQRS.RegProofs CQRS.Calls CQRS.CallsProofs CQRS.Own CQRS.OwnProofs CQRS.Names CQRS.NamesProofs.
 
 Section C15.
   Context {V T P : Type}.
@@ -414,6 +414,33 @@ Section C15_Own.
   Proof. exact (own_monitor_accepts enc). Qed.
 End C15_Own.
 
+(** ** name.go (round "seeds 4"; model: CQRS/Names.v): the name of a command / event does not depend
+    on how many pointer levels the value is passed through *)
+
+(** every generator (FullyQualifiedStructName, StructName, NamedStruct over them, nested), every
+    pointer depth, every package-qualified Go type name without a Name method: the name of the
+    value reached through [d] pointers is the name of the plain value *)
+Theorem C15_name_invariant_under_pointer_depth : forall g d base,
+  (forall c rest, base = c :: rest -> c <> STAR) -> In DOT base ->
+  name_of g d base None = name_of g 0 base None.
+Proof. exact name_invariant. Qed.
+
+(** FullyQualifiedStructName is the type's own name "pkg.T" at every depth *)
+Theorem C15_fully_qualified_name_is_type_name : forall d base,
+  (forall c rest, base = c :: rest -> c <> STAR) ->
+  name_of GFullyQualified d base None = base.
+Proof. exact fq_invariant. Qed.
+
+(** NamedStruct: a type with a value-receiver Name method names itself as T and as *T *)
+Theorem C15_named_struct_names_itself : forall f d base n, d <= 1 ->
+  name_of (GNamedStruct f) d base (Some n) = n.
+Proof. exact named_self. Qed.
+
+Theorem C15_name_model_accepted : forall g d base own,
+  (forall c rest, base = c :: rest -> c <> STAR) -> In DOT base ->
+  name_monitor g d base own (name_of g d base own) = true.
+Proof. exact name_monitor_accepts. Qed.
+
 Print Assumptions C15_bus_publishes_at_most_once.
 Print Assumptions C15_bus_publishes_once.
 Print Assumptions C15_bus_message_carries_name_and_payload.
@@ -462,6 +489,11 @@ Print Assumptions C15_published_buffer_fresh.
 Print Assumptions C15_published_buffers_distinct.
 Print Assumptions C15_prescribed_payload_is_published_payload.
 Print Assumptions C15_ownership_model_accepted.
+
+Print Assumptions C15_name_invariant_under_pointer_depth.
+Print Assumptions C15_fully_qualified_name_is_type_name.
+Print Assumptions C15_named_struct_names_itself.
+Print Assumptions C15_name_model_accepted.
 
 (** ** non-vacuity: concrete instances (values = (type, content), identity codec on the content,
     the name of a value is its type number) *)
